@@ -521,6 +521,13 @@ func clientUDP(s *task, n *simnet.Net, items []*item) {
 	srv := net.UDPAddrFromAddrPort(netip.MustParseAddrPort(addrDNS))
 	sentAt := map[uint16]*item{}
 	for _, it := range items {
+		if len(it.raw) > 512 {
+			// RFC 1035, section 4.2.1: messages carried by UDP are restricted
+			// to 512 octets; the server's datagram receive buffer has that
+			// size, so longer queries are exercised on the other transports
+			// only.
+			continue
+		}
 		s.pause()
 		_, _ = pc.WriteTo(it.raw, srv)
 		if it.msg != nil {
@@ -562,7 +569,7 @@ func clientUDP(s *task, n *simnet.Net, items []*item) {
 	// client lies between 0 and the number of copies; the fault-free
 	// sub-batch demands exactly one.
 	for _, it := range items {
-		if it.msg == nil {
+		if it.msg == nil || len(it.raw) > 512 {
 			continue
 		}
 		e := expect(it)
